@@ -152,20 +152,6 @@ theorem clamped_range (v : F32) : ∃ q nz, fmin (fmax v zero) vMax = .fin q nz 
         · exact ⟨10, false, by simp [fmax, fmin, zero, mixedZeros, lt, hq, h1, h2], by norm_num, le_refl _⟩
         · refine ⟨q, nz, by simp [fmax, fmin, zero, mixedZeros, lt, hq, h1, h2], not_lt.mp h1, not_lt.mp h2⟩
 
-theorem toU32_fin_le (r : ℚ) (nz : Bool) (N : ℕ) (h : r ≤ N) (hN : N < 2 ^ 32) : toU32 (.fin r nz) ≤ N := by
-  simp only [toU32]
-  split
-  · omega
-  · rename_i hneg
-    have h0 : 0 ≤ r := not_lt.mp hneg
-    have hf : r.floor.toNat ≤ N := by
-      have : r.floor ≤ (N:ℤ) := by
-        have h' : (⌊r⌋ : ℤ) ≤ ⌊(N:ℚ)⌋ := Int.floor_le_floor h
-        have h'' : (⌊r⌋ : ℤ) ≤ (N:ℤ) := by simpa using h'
-        exact h''
-      omega
-    split <;> omega
-
 /-- the µV value the search runs on never exceeds 10 V -/
 theorem microvolts_le (v : F32) : toMicrovolts (fmin (fmax v zero) vMax) ≤ 10000000 := by
   obtain ⟨q, nz, hq, h0, h10⟩ := clamped_range v
